@@ -156,6 +156,12 @@ func GenStream(r *core.Rand, cfg *StreamCfg) *Stream {
 			// "\r\r\n": one terminator is stripped, a carriage return remains - not a blank line, not a frame: it ends the dump
 			first = "\r"
 		}
+		if last && r.Chance(1, 25) {
+			// the line that ends the last dump is the last of the stream, unterminated and as long as the scanner's
+			// read buffer, give or take a byte
+			s.Segs = append(s.Segs, Seg{Text: BinStr(d.F.Indent + strings.Repeat("y", 16384-len(d.F.Indent)+r.Intn(3)-1))})
+			continue
+		}
 		s.Segs = append(s.Segs, Seg{Text: BinStr(d.F.Indent + first + eol + text(r.Intn(3)))})
 	}
 	if cfg.EndWithheld > 0 {
